@@ -64,7 +64,11 @@ func Discipline(k stdh.Kind, plan stdgen.Plan, o Opts) (stdgen.Plan, bool) {
 		return plan, false
 	}
 	if o.xzFilterChain {
-		plan.SrcMode, plan.SrcChunk, plan.SrcList = 0, 0, nil // S3: the source is not split for BCJ filter chains
+		// S3: neither side is split for xz filter chains (source pieces of 1..7 bytes
+		// and destination windows of 9..18 bytes both make the decode fail)
+		plan.SrcMode, plan.SrcChunk, plan.SrcList, plan.LateClose = 0, 0, nil, false
+		plan.DstMode, plan.DstStep = 0, 0
+		return plan, true
 	}
 	if plan.DstMode != 2 {
 		plan.DstMode = 2
@@ -221,8 +225,8 @@ func (e *Env) Run(variant string, k stdh.Kind, payload []byte, plan stdgen.Plan,
 	o.xzFilterChain = k.Pkg() == "xz" && xzHasFilterChain(payload)
 	if _, d := Discipline(k, plan, o); d {
 		ev.Excluded("S1-S3-lzma-family-driver-discipline")
-		if o.xzFilterChain && plan.SrcMode != 0 {
-			ev.Excluded("S3-xz-filter-chain-source-not-split")
+		if o.xzFilterChain {
+			ev.Excluded("S3-xz-filter-chain-not-split")
 		}
 	}
 	resp, err := e.Exec(variant, Request(k, payload, plan, o))
